@@ -662,7 +662,7 @@ def correspond(ctx):
     preludes(ctx)
     ctx.log("sort sites and preludes done")
     r = ctx.rng("programs")
-    nprog = int(os.environ.get("VERIF_C17_PROGS", "0")) or (24 if ctx.quick else 150)   # override only for debugging the check
+    nprog = int(os.environ.get("VERIF_C17_PROGS", "0")) or (24 if ctx.quick else 100)   # override only for debugging the check
     progs = [G.witness_program(6), G.minimal_witness(), G.warm_witness()] + [G.gen_program(r, i) for i in range(nprog)]
     info = collector(ctx, progs)
     ctx.log("collector done")
@@ -730,5 +730,5 @@ LEVEL_TEXT = ("Machine-checked: each sort site returns THE canonical sorted perm
               "the numbering does not depend on how the map is laid out (Collector.Finish as repaired). The real Finish is compared exactly with "
               "that model on every generated program.")
 LEVEL_NOTE = ("Partial by nature: the compiler as a whole is not modelled, so `byte-identical output` is established only by hashing real builds of "
-              "generated programs (~27 programs x 6-8 builds quick, ~150 x 16-18 thorough). Proofs are about the hand-written model, tied to /repo "
+              "generated programs (~27 programs x 6-8 builds quick, ~100 x 16-18 thorough). Proofs are about the hand-written model, tied to /repo "
               "differentially on every run. No axioms.")
